@@ -5,7 +5,7 @@ use vh_common::Rng;
 
 pub type Input = (u32, i32, i32, String);
 
-pub const KINDS: [&str; 7] = ["dag", "chain200", "cycle_plain", "cycle_absorbed", "cross_sheet", "empty_and_nonfinite", "dynamic_arrays"];
+pub const KINDS: [&str; 8] = ["dag", "chain200", "cycle_plain", "cycle_absorbed", "cross_sheet", "empty_and_nonfinite", "dynamic_arrays", "spill_boundary_reads"];
 pub const ROWS: i32 = 8;
 pub const COLS: i32 = 6;
 
@@ -393,6 +393,73 @@ fn gen_dynamic(rng: &mut Rng) -> Vec<Input> {
     out
 }
 
+
+/// kind 7: a PRODUCER dynamic array Q (extent h x w) and CONSUMER dynamic arrays that read, as a plain
+/// range (no `#`, no scalar formula in between), exactly the first row / last row / first column /
+/// last column / one corner cell / an interior cell / the whole of Q's spill; the consumer is placed
+/// before or after Q in (sheet,row,column) order, on the same or on the other sheet; optionally a
+/// second consumer reads the boundary of the first one (a chain of direct reads), plus scalar readers.
+/// Extents are pairwise disjoint and cover no input: the spill-order repair of `evaluate` (phase 1,
+/// `position_in_support`) must make every entry order and schedule agree.
+fn gen_boundary(rng: &mut Rng) -> Vec<Input> {
+    let mut out: Vec<Input> = vec![];
+    let (h, w) = *rng.pick(&[(3, 1), (1, 3), (2, 2), (3, 2), (2, 3), (3, 3), (1, 2), (2, 1)]);
+    let consumer_first = rng.chance(1, 2);          // consumer before the producer in sheet order
+    let other_sheet = rng.chance(1, 4);
+    // sheets: consumer before => consumer on the lower sheet
+    let (sq, sp): (u32, u32) = if !other_sheet { (0, 0) } else if consumer_first { (1, 0) } else { (0, 1) };
+    // the literal block the producer may lift: K1.. on the producer's sheet (columns 11..13, rows 1..3)
+    let (lr, lc) = (1, 11);
+    for r in 0..h { for c in 0..w { out.push((sq, lr + r, lc + c, format!("{}", (r * 3 + c + 1) * if rng.chance(1, 5) { -1 } else { 1 }))); } }
+    let lit = rng_text(lr, lc, lr + h - 1, lc + w - 1);
+    // anchors: two bands of rows, columns 2..; the band decides the sheet order on the same sheet
+    let (q_row, p_row) = if consumer_first { (7 + rng.range(0, 2) as i32, 1 + rng.range(0, 1) as i32) } else { (1 + rng.range(0, 1) as i32, 7 + rng.range(0, 2) as i32) };
+    let q_col = 2 + rng.range(0, 2) as i32;
+    let p_col = 1 + rng.range(0, 3) as i32;
+    let q_text = match rng.below(6) {
+        0 | 1 | 2 => format!("={lit}*1"),
+        3 => format!("=SEQUENCE({h},{w})"),
+        4 => format!("=SEQUENCE({h},{w})*10"),
+        _ => format!("={lit}+0"),
+    };
+    out.push((sq, q_row, q_col, q_text));
+    // the part of Q's spill the consumer reads
+    let (qr2, qc2) = (q_row + h - 1, q_col + w - 1);
+    let part = |k: u64| -> (i32, i32, i32, i32) {
+        match k {
+            0 => (q_row, q_col, q_row, qc2),   // first row
+            1 => (qr2, q_col, qr2, qc2),       // last row
+            2 => (q_row, q_col, qr2, q_col),   // first column
+            3 => (q_row, qc2, qr2, qc2),       // last column
+            4 => (q_row, q_col, q_row, q_col), // corners
+            5 => (q_row, qc2, q_row, qc2),
+            6 => (qr2, q_col, qr2, q_col),
+            7 => (qr2, qc2, qr2, qc2),
+            8 => (q_row, q_col, qr2, qc2),     // everything
+            _ => ((q_row + qr2) / 2, (q_col + qc2) / 2, qr2, qc2), // from the middle to the end
+        }
+    };
+    let (r1, c1, r2, c2) = part(rng.below(10));
+    let rr = qrange(sp, sq, r1, c1, r2, c2);
+    let p_text = match rng.below(5) { 0 | 1 => format!("={rr}*1"), 2 => format!("={rr}+0"), 3 => format!("={rr}*2"), _ => format!("={rr}") };
+    out.push((sp, p_row, p_col, p_text));
+    let (ph, pw) = (r2 - r1 + 1, c2 - c1 + 1);
+    // a second consumer reading the boundary of the first one (rows 12.., far from everything)
+    if rng.chance(1, 3) {
+        let (a, b, c, d) = match rng.below(3) { 0 => (p_row, p_col, p_row, p_col + pw - 1), 1 => (p_row + ph - 1, p_col, p_row + ph - 1, p_col + pw - 1), _ => (p_row, p_col + pw - 1, p_row + ph - 1, p_col + pw - 1) };
+        out.push((sp, 12, 6, format!("={}*1", rng_text(a, b, c, d))));
+    }
+    // scalar readers of both spills, after everything in sheet order and before everything
+    let qcell = qref(rng, sp, sq, qr2, qc2);
+    out.push((sp, 16, 1, format!("=SUM({})", qrange(sp, sq, q_row, q_col, qr2, qc2))));
+    out.push((sp, 16, 2, format!("={qcell}+1")));
+    out.push((sp, 16, 3, format!("=SUM({})", rng_text(p_row, p_col, p_row + ph - 1, p_col + pw - 1))));
+    if rng.chance(1, 2) && !(p_row == 1 && p_col == 1) && !(sq == sp && q_row == 1 && q_col == 1) {
+        out.push((sp, 1, 1, format!("=COUNT({})", rng_text(p_row, p_col, p_row + ph - 1, p_col + pw - 1))));
+    }
+    out
+}
+
 pub fn gen_workbook(rng: &mut Rng, kind: usize) -> Vec<(u32, i32, i32, String)> {
     let mut w = match kind {
         0 => gen_dag(rng, false),
@@ -401,7 +468,8 @@ pub fn gen_workbook(rng: &mut Rng, kind: usize) -> Vec<(u32, i32, i32, String)> 
         3 => gen_cycle(rng, true),
         4 => gen_dag(rng, true),
         5 => gen_empty_nonfinite(rng),
-        _ => gen_dynamic(rng),
+        6 => gen_dynamic(rng),
+        _ => gen_boundary(rng),
     };
     w.sort();
     w.dedup_by(|a, b| (a.0, a.1, a.2) == (b.0, b.1, b.2));
